@@ -13,6 +13,9 @@
 //                       `if ignored(A) && ignored(B) { return }`, "enter" = `if ... && !ignored(A) { ... }`
 //   open_lookups        check/analysis/*.go: every `if _, ok := ...OpenErrorTypeMap[T]; !ok { return }`: (function, T)
 //   analysis_choke_calls check/analysis/*.go: every direct call of IsIgnoreErrorFile: (function, (file argument, type))
+//   ignore_site_calls   dir_manager.go getAllFile, global_conf.go IsIgnoreCompleteFile (+ isIgnoreRelFile if it exists):
+//                       which of isIgnoreFile / isIgnoreFloder / isIgnoreRelFile / IsIgnoreCompleteFile each one calls,
+//                       in source order (the two places where the ignore-for-analysis rules decide)
 package main
 
 import (
@@ -356,6 +359,27 @@ func c17RulesMerged(fd *ast.FuncDecl) (bool, error) {
 	return reads == 1, nil
 }
 
+// the calls of the ignore-for-analysis helpers inside one function, in source order
+func c17IgnoreSiteCalls(fd *ast.FuncDecl) []string {
+	var out []string
+	ast.Inspect(fd.Body, func(n ast.Node) bool {
+		ce, ok := n.(*ast.CallExpr)
+		if !ok {
+			return true
+		}
+		se, ok := ce.Fun.(*ast.SelectorExpr)
+		if !ok {
+			return true
+		}
+		switch se.Sel.Name {
+		case "isIgnoreFile", "isIgnoreFloder", "isIgnoreRelFile", "IsIgnoreCompleteFile":
+			out = append(out, se.Sel.Name)
+		}
+		return true
+	})
+	return out
+}
+
 func init() {
 	registerGen("flags", func(repo string) (string, string, error) {
 		const out = "GenFlags.v"
@@ -510,6 +534,31 @@ func init() {
 		if err != nil {
 			return out, "", err
 		}
+		fdm, err := c17ParseGo(filepath.Join(ls, "check/common/dir_manager.go"))
+		if err != nil {
+			return out, "", err
+		}
+		type siteCalls struct {
+			fn    string
+			calls []string
+		}
+		var sites []siteCalls
+		gaf := c17FindFunc(fdm, "getAllFile")
+		if gaf == nil {
+			return out, "", fmt.Errorf("dir_manager.go: func getAllFile not found")
+		}
+		sites = append(sites, siteCalls{"getAllFile", c17IgnoreSiteCalls(gaf)})
+		icf := c17FindFunc(fg, "IsIgnoreCompleteFile")
+		if icf == nil {
+			return out, "", fmt.Errorf("global_conf.go: func IsIgnoreCompleteFile not found")
+		}
+		sites = append(sites, siteCalls{"IsIgnoreCompleteFile", c17IgnoreSiteCalls(icf)})
+		if irf := c17FindFunc(fg, "isIgnoreRelFile"); irf != nil {
+			sites = append(sites, siteCalls{"isIgnoreRelFile", c17IgnoreSiteCalls(irf)})
+		}
+		if len(sites[0].calls) == 0 || len(sites[1].calls) == 0 {
+			return out, "", fmt.Errorf("getAllFile / IsIgnoreCompleteFile: no ignore-rule call found: shape not recognised")
+		}
 		guards, opens, chokes, err := c17ScanAnalysis(filepath.Join(ls, "check/analysis"))
 		if err != nil {
 			return out, "", err
@@ -583,6 +632,11 @@ func init() {
 			cq[i] = fmt.Sprintf("(\"%s\", (\"%s\", \"%s\"))", c[0], c[1], c[2])
 		}
 		fmt.Fprintf(&b, "Definition analysis_choke_calls : list (string * (string * string)) :=\n  [%s].\n\n", strings.Join(cq, ";\n   "))
+		sq := make([]string, len(sites))
+		for i, st := range sites {
+			sq[i] = fmt.Sprintf("(\"%s\", %s)", st.fn, c17CoqStrings(st.calls))
+		}
+		fmt.Fprintf(&b, "(* which ignore-for-analysis helper the directory walk and the per-file predicate call *)\nDefinition ignore_site_calls : list (string * list string) :=\n  [%s].\n\n", strings.Join(sq, ";\n   "))
 		dq := make([]string, len(docs))
 		for i, d := range docs {
 			dq[i] = fmt.Sprintf("(\"%s\", %s%%N)", d.name, d.ty)
